@@ -30,6 +30,7 @@ import (
 type symCtx struct {
 	atoms []symAtom
 	recv  *ssa.Parameter
+	leaf  func(ssa.Value) (frac, bool) // rule-specific symbols, tried first
 }
 
 type symAtom struct {
@@ -71,6 +72,11 @@ func (sc *symCtx) symOf(v ssa.Value, pick func(*ssa.Phi) ssa.Value, depth int) (
 	if depth > 60 {
 		return frac{}, false
 	}
+	if sc.leaf != nil {
+		if f, ok := sc.leaf(v); ok {
+			return f, true
+		}
+	}
 	switch x := v.(type) {
 	case *ssa.Const:
 		if r := ratOf(x.Value); r != nil {
@@ -103,6 +109,9 @@ func (sc *symCtx) symOf(v ssa.Value, pick func(*ssa.Phi) ssa.Value, depth int) (
 			a, ok := sc.symOf(x.X, pick, depth+1)
 			return a.neg(), ok
 		case token.MUL:
+			if sc.recv == nil {
+				return frac{}, false
+			}
 			// a model field, or an element of the base-frequency vector
 			if _, f, base := loadedField(x); base != nil && base == ssa.Value(sc.recv) {
 				return fracSym(f), true
